@@ -5,15 +5,15 @@
 #   test-suite passes WITH the patch, (d) demo fails WITH the patch.  Prints one line per step.
 set -u
 S=$(readlink -f "$1"); CRATE=$2; NAME=$3
-W=/tmp/confirm/repo
+W=${CONFIRM_W:-/tmp/confirm/repo}
 export CARGO_BUILD_JOBS=6 CARGO_NET_OFFLINE=true
 cd $W || exit 3
 git checkout -q -- . && git clean -fdq -e target
 mkdir -p crates/$CRATE/tests
 cp "$S/demo.rs" crates/$CRATE/tests/$NAME.rs
-if cargo test -q -p $CRATE --offline --test $NAME > /tmp/confirm/a.log 2>&1; then echo "a: demo passes without the change"; else echo "a: DEMO FAILS WITHOUT THE CHANGE"; tail -15 /tmp/confirm/a.log; fi
+if cargo test -q -p $CRATE --offline --test $NAME > $W/../a.log 2>&1; then echo "a: demo passes without the change"; else echo "a: DEMO FAILS WITHOUT THE CHANGE"; tail -15 $W/../a.log; fi
 git apply "$S/patch.diff" || { echo "b: PATCH DOES NOT APPLY"; exit 1; }
-if cargo test -q -p $CRATE --offline --test $NAME > /tmp/confirm/d.log 2>&1; then echo "d: DEMO PASSES WITH THE CHANGE"; else echo "d: demo fails with the change"; fi
+if cargo test -q -p $CRATE --offline --test $NAME > $W/../d.log 2>&1; then echo "d: DEMO PASSES WITH THE CHANGE"; else echo "d: demo fails with the change"; fi
 rm crates/$CRATE/tests/$NAME.rs
-if cargo nextest run --workspace --offline --test-threads 6 --no-fail-fast > /tmp/confirm/c.log 2>&1; then echo "c: existing suite passes with the change: $(grep Summary /tmp/confirm/c.log)"; else echo "c: SUITE FAILS WITH THE CHANGE: $(grep Summary /tmp/confirm/c.log)"; grep "^\s*FAIL" /tmp/confirm/c.log | sort -u | head; fi
+if cargo nextest run --workspace --offline --test-threads 6 --no-fail-fast > $W/../c.log 2>&1; then echo "c: existing suite passes with the change: $(grep Summary $W/../c.log)"; else echo "c: SUITE FAILS WITH THE CHANGE: $(grep Summary $W/../c.log)"; grep "^\s*FAIL" $W/../c.log | sort -u | head; fi
 git checkout -q -- . && git clean -fdq -e target
